@@ -677,6 +677,121 @@ Section ConnProofs.
   Qed.
 End ConnProofs.
 
+(** the same, with the hypothesis on the application stated along the run of this very history *)
+Section PathProofs.
+  Variables Q A : Type.
+  Variable q_method : Q -> N.
+  Variable q_content_length : Q -> option bytes.
+  Variable q_known_host : Q -> bool.
+  Variable q_head : Q -> bytes.
+  Variable app : A -> Q -> A * reply0 * option N.
+  Variable error_body : N -> option bytes -> bytes.
+  Variable package : Q -> head -> head.
+  Variable too_many_body : bytes.
+  Hypothesis Hpk : packages_ok Q package.
+
+  Fixpoint run_ok (a : A) (hs : list (hreq Q)) : Prop :=
+    match hs with
+    | [] => True
+    | h :: rest =>
+        match h_action h with
+        | ASend => run_ok a rest
+        | _ => reply_ok (snd (fst (app a (h_q h)))) /\ run_ok (fst (fst (app a (h_q h)))) rest
+        end
+    end.
+
+  Lemma conn_polite_path : forall hs a, run_ok a hs -> Forall (polite Q q_method q_content_length q_known_host) hs ->
+    exists ss,
+      conn_run Q A q_method q_content_length q_known_host q_head app error_body package too_many_body true true a (Open []) hs
+        = (map Some ss, Open []) /\
+      length ss = length hs /\
+      parse_responses (map (fun h => q_method (h_q h)) hs) (written (map Some ss)) = Some (map observable ss).
+  Proof.
+    assert (H : forall hs a, run_ok a hs -> Forall (polite Q q_method q_content_length q_known_host) hs ->
+      exists ss,
+        conn_run Q A q_method q_content_length q_known_host q_head app error_body package too_many_body true true a (Open []) hs
+          = (map Some ss, Open []) /\
+        Forall2 framed (map (fun h => q_method (h_q h)) hs) ss).
+    { induction hs as [|h hs IH]; intros a Hrun Hp.
+      - exists []. split; [reflexivity | constructor].
+      - inversion Hp as [|? ? Hh Hrest]; subst. pose proof Hh as (Hk & Hd & Ht).
+        cbn [conn_run run_ok] in *. unfold conn_step. rewrite Hk. cbn [negb].
+        destruct (h_action h) eqn:Ea; [| |congruence].
+        + destruct Hrun as [Hr Hrun]. destruct (app a (h_q h)) as [[a' r] lim] eqn:Eapp. cbn [fst snd] in Hr, Hrun.
+          destruct (send_never_panics error_body (package (h_q h)) (Hpk (h_q h)) (q_method (h_q h)) r Hr) as (s & Es).
+          rewrite Es. rewrite (after_body_polite Q q_method q_content_length q_known_host error_body h lim Hh).
+          destruct (IH a' Hrun Hrest) as (ss & E1 & E3). rewrite E1.
+          exists (s :: ss). split; [reflexivity|]. cbn [map]. constructor; [|assumption].
+          exact (send_framed error_body (package (h_q h)) (Hpk (h_q h)) _ r s Hr Es).
+        + rewrite (after_body_polite Q q_method q_content_length q_known_host error_body h None Hh).
+          destruct (IH a Hrun Hrest) as (ss & E1 & E3). rewrite E1.
+          exists (limited too_many_body true (q_method (h_q h)) :: ss). split; [reflexivity|].
+          cbn [map]. constructor; [apply limited_framed | assumption]. }
+    intros hs a Hrun Hp. destruct (H hs a Hrun Hp) as (ss & E1 & E3). exists ss.
+    split; [assumption|]. split.
+    - apply forall2_length in E3. rewrite map_length in E3. symmetry. assumption.
+    - rewrite written_somes. apply framing_roundtrip_forall2. assumption.
+  Qed.
+End PathProofs.
+
+(** the executable checks of Model/Http1Write.v imply the hypotheses *)
+Lemma reply_okb_sound r : reply_okb r = true -> reply_ok r.
+Proof.
+  unfold reply_okb, reply_ok. intros H.
+  repeat (apply andb_true_iff in H; destruct H as [H ?]).
+  split; [lia|]. split; [intros E; rewrite E in *; discriminate|].
+  split; [apply Forall_forall; intros x Hx; eapply forallb_forall in Hx; eassumption|].
+  split.
+  { apply Forall_forall. intros x Hx.
+    match goal with Hl : forallb (fun h => beq (lower (fst h)) (fst h)) _ = true |- _ =>
+      eapply forallb_forall in Hl; [|exact Hx]; apply beq_eq in Hl; exact Hl end. }
+  split.
+  { apply existsb_filter_nil. destruct (existsb (is_name s_transfer_encoding) (r0_headers r)); [discriminate | reflexivity]. }
+  split.
+  { intros Hb. match goal with Hn : negb (bodyless_status _) || is_nil _ = true |- _ => rewrite Hb in Hn; cbn [negb orb] in Hn end.
+    destruct (r0_body r); [reflexivity | discriminate]. }
+  destruct (r0_sanitize r) as [[[s e]|]|]; try exact Logic.I. lia.
+Qed.
+
+Lemma c8_politeb_sound h : c8_politeb h = true ->
+  polite c8req (fun q => rq_method (q_req q)) (fun q => header s_content_length (q_req q)) (fun q => negb (q_nohost q)) h.
+Proof.
+  unfold c8_politeb, polite. intros H. repeat (apply andb_true_iff in H; destruct H as [H ?]).
+  split; [assumption|]. split; [intros E; rewrite E in *; discriminate|]. lia.
+Qed.
+
+Lemma c8_hyps_sound cfg : forall hs st, c8_hyps cfg st hs = true ->
+  run_ok c8req c8_state (fun st q => c8_app cfg st (q_req q)) st hs /\
+  Forall (polite c8req (fun q => rq_method (q_req q)) (fun q => header s_content_length (q_req q)) (fun q => negb (q_nohost q))) hs.
+Proof.
+  induction hs as [|h hs IH]; intros st H; [split; [exact Logic.I | constructor]|].
+  cbn [c8_hyps] in H. apply andb_true_iff in H as [Hp H]. apply c8_politeb_sound in Hp.
+  cbn [run_ok].
+  destruct (h_action h).
+  - destruct (c8_app cfg st (q_req (h_q h))) as [[st' r] lim] eqn:E. apply andb_true_iff in H as [Hr H].
+    destruct (IH st' H) as [H1 H2]. cbn [fst snd]. split; [split; [apply reply_okb_sound; assumption | assumption]|].
+    constructor; assumption.
+  - destruct (IH st H) as [H1 H2]. split; [assumption | constructor; assumption].
+  - destruct (c8_app cfg st (q_req (h_q h))) as [[st' r] lim] eqn:E. apply andb_true_iff in H as [Hr H].
+    destruct (IH st' H) as [H1 H2]. cbn [fst snd]. split; [split; [apply reply_okb_sound; assumption | assumption]|].
+    constructor; assumption.
+Qed.
+
+(** every history of the correspondence run whose hypothesis bit (third field of [h1w.expect]) is 1 is an
+    instance of the connection theorem: the model's run of it has the property, by proof *)
+Lemma checked_history_lemma cfg reqs :
+  c8_hyps cfg (c8_state0 cfg) (with_actions (c8_limit cfg) 1 reqs) = true ->
+  exists ss, c8_run true true cfg reqs = (map Some ss, Open []) /\
+             length ss = length (with_actions (c8_limit cfg) 1 reqs) /\
+             parse_responses (map (fun h => rq_method (q_req (h_q h))) (with_actions (c8_limit cfg) 1 reqs))
+                             (written (map Some ss)) = Some (map observable ss).
+Proof.
+  intros H. destruct (c8_hyps_sound cfg _ _ H) as [Hrun Hp]. unfold c8_run.
+  apply (conn_polite_path c8req c8_state (fun q => rq_method (q_req q)) (fun q => header s_content_length (q_req q))
+           (fun q => negb (q_nohost q)) q_raw_head (fun st q => c8_app cfg st (q_req q)) hardcoded_error_body
+           (fun _ h => h) TOO_MANY (fun q => package_id_ok) _ _ Hrun Hp).
+Qed.
+
 (** the failure modes of the loop: after the server closed, nothing more is written; a request beyond the
     limiter's drop level closes without an answer; a request for an unknown host gets a well-formed 409 and
     the connection is closed *)
